@@ -233,6 +233,23 @@ func planScreen(rng *rand.Rand, nops int, w, h int, mix string, rich bool, hasCa
 			if len(last) > 8 {
 				last = last[1:]
 			}
+		case k < 46 && rich && rng.Intn(10) == 0:
+			// adjacent cells whose styles differ in exactly one component, painted in one frame
+			y, x0 := rng.Intn(ch), 0
+			for i, st := range tcx.StyleVariants(rng) {
+				if x0+i >= cw {
+					break
+				}
+				add(sop{Op: "SetContent", X: x0 + i, Y: y, R: 'u', St: st})
+			}
+			add(sop{Op: "Show"})
+		case k < 47 && len(last) > 0 && rng.Intn(6) == 0:
+			// a fallback registered or removed for a rune that is on the screen: in a UTF-8 locale nothing changes,
+			// and nothing may be repainted for it
+			o := last[rng.Intn(len(last))]
+			add(sop{Op: "Show"})
+			add(sop{Op: "Fallback", R: o.R, B: rng.Intn(2) == 0, S: "?"})
+			add(sop{Op: "Show"})
 		case k < 46 && cw >= 5 && rng.Intn(8) == 0:
 			// bottom line: a wide rune, shown; another wide rune one column to its left (the first stays stored but
 			// hidden); then the corner cell changes - whoever owns column w-2 must be found by walking the line
@@ -822,18 +839,35 @@ func screenMain(args []string) error {
 	big := fs.Int("big", 0, "every big-th history uses a large screen (0: never)")
 	charset := fs.String("charset", "UTF-8", "locale character set")
 	nopad := fs.Bool("nopad", false, "strip $<..> padding from the entry (padding is C15's subject; avoids real sleeps in long replays)")
+	localeVia := fs.String("localevia", "LC_ALL", "which variable names the locale: LC_ALL | LC_CTYPE | LANG (the others name a different charset)")
 	sweep := fs.String("sweep", "", "code-point sweep instead of random histories: quick | full")
 	fs.Parse(args)
 	encoding.Register()
 
-	if *charset == "UTF-8" {
-		os.Setenv("LC_ALL", "en_US.UTF-8")
-	} else {
-		os.Setenv("LC_ALL", "en_US."+*charset)
-		pickLegacy = true
-	}
 	os.Unsetenv("LC_CTYPE")
 	os.Unsetenv("LANG")
+	if *charset != "UTF-8" {
+		pickLegacy = true
+	}
+	// POSIX: LC_ALL wins, then LC_CTYPE, then LANG; the variables not used for the charset name another one
+	other := "en_US.UTF-8"
+	if *charset == "UTF-8" {
+		other = "ru_RU.KOI8-R"
+	}
+	switch *localeVia {
+	case "LC_CTYPE":
+		os.Setenv("LC_ALL", "")
+		os.Setenv("LC_CTYPE", "en_US."+*charset)
+		os.Setenv("LANG", other)
+	case "LANG":
+		os.Setenv("LC_ALL", "")
+		os.Setenv("LC_CTYPE", "")
+		os.Setenv("LANG", "en_US."+*charset)
+	default:
+		os.Setenv("LC_ALL", "en_US."+*charset)
+		os.Setenv("LC_CTYPE", other)
+		os.Setenv("LANG", other)
+	}
 	os.Unsetenv("LINES")
 	os.Unsetenv("COLUMNS")
 	os.Unsetenv("TCELL_TRUECOLOR")
